@@ -145,7 +145,7 @@ PROPS = {
     "C13": {
         "props_module": "RedbModel.Props.C13",
         "props_modules_extra": ["RedbModel.Props.Life2"],
-        "streams": [("history", ["--focus", "c13"], "history"), ("crash", [], "crash", ("thorough",))],
+        "streams": [("history", ["--focus", "c13"], "history"), ("crash", ["--focus", "c13"], "crash")],
         "rule": 'a case is one random history of whole-database steps (write transactions of every durability / two-phase / quick-repair mix with table, multimap, delete-table and savepoint create/restore/delete operations, ending in commit, abort or drop; begin_read / drop reader; drop savepoint; clean reopen; crash-reopen; compact; check_integrity; list savepoints), page 512..4096, region 64 KiB..default, cache 0..1 GiB; after every step: committed contents vs recorded commit point, every live reader re-read vs its start contents, page accounting from the snapshot hooks, fingerprints of every pinned tree, `hist state` line for the Lean monitor; histories end with a quiescence check; distinct by hash of lines, non-trivial if completed' + " (generator weighted for C13)",
         "trusted_base": BASE_TRUST + ["modelled, not verified: the page life-cycle of transactions.rs / transaction_tracker.rs / page_manager.rs twice: as the ownership monitor Model/Lifecycle.lean (ownOk, pinOk, moveOk, stepOk, abortOk) and as the algorithmic state machine Model/Life2.lean (commit pipeline beginWrite / savepoint ops / data step / merge / release / publish / epilogue, non-durable reclaim, abort, readers, savepoints, reopen, crash) whose inputs are the observed tree diffs (the B-tree layer is an input, under a stated guard) and one oracle input (which lost system pages a quick-repair commit recorded before the allocator snapshot); owner sets are computed with redb's own tree traversal through the read-only hook (the Lean format decoder checks the same images independently in C10)"],
         "assumptions": ["single-threaded histories (interleavings are C03/C16)", "preemption inside lock-protected blocks and weak-memory effects are not modelled"],
